@@ -130,6 +130,7 @@ fn worker_main(args: &[String]) -> i32 {
     let mut events = 0u64;
     let mut invalid = 0u64;
     let mut invalid_sample: Option<String> = None;
+    let mut invalid_reasons: BTreeMap<String, u64> = BTreeMap::new();
     let mut faults: BTreeMap<String, u64> = BTreeMap::new();
     let mut probes: BTreeMap<String, u64> = BTreeMap::new();
     let mut nontrivial: BTreeSet<u64> = BTreeSet::new();
@@ -175,6 +176,7 @@ fn worker_main(args: &[String]) -> i32 {
         }
         if let Some(msg) = &outcome.invalid {
             invalid += 1;
+            *invalid_reasons.entry(msg.chars().take(60).collect::<String>().replace(|c: char| c.is_ascii_digit(), "#")).or_insert(0) += 1;
             if invalid_sample.is_none() {
                 invalid_sample = Some(format!("index {}: {}", index, msg));
             }
@@ -198,6 +200,7 @@ fn worker_main(args: &[String]) -> i32 {
         "events": events,
         "invalid": invalid,
         "invalid_sample": invalid_sample,
+        "invalid_reasons": invalid_reasons,
         "faults": faults,
         "probes": probes,
         "nontrivial": nontrivial.iter().collect::<Vec<_>>(),
@@ -368,6 +371,7 @@ fn run_main(args: &[String]) -> i32 {
     let mut events = 0u64;
     let mut invalid = 0u64;
     let mut invalid_sample = J::Null;
+    let mut invalid_reasons: BTreeMap<String, u64> = BTreeMap::new();
     let mut faults: BTreeMap<String, u64> = BTreeMap::new();
     let mut probes: BTreeMap<String, u64> = BTreeMap::new();
     let mut nontrivial: BTreeSet<u64> = BTreeSet::new();
@@ -396,6 +400,9 @@ fn run_main(args: &[String]) -> i32 {
         }
         for (k, v) in data["faults"].as_object().unwrap() {
             *faults.entry(k.clone()).or_insert(0) += v.as_u64().unwrap_or(0);
+        }
+        for (k, v) in data["invalid_reasons"].as_object().unwrap() {
+            *invalid_reasons.entry(k.clone()).or_insert(0) += v.as_u64().unwrap_or(0);
         }
         for (k, v) in data["probes"].as_object().unwrap() {
             *probes.entry(k.clone()).or_insert(0) += v.as_u64().unwrap_or(0);
@@ -520,6 +527,7 @@ fn run_main(args: &[String]) -> i32 {
             "workers": workers,
             "invalid_cases": invalid,
             "invalid_sample": invalid_sample,
+            "invalid_reasons": invalid_reasons,
             "faults_fired": faults,
             "probes": probes,
             "violation_classes": violation_summaries,
